@@ -49,7 +49,10 @@ LEVEL_TEXT = (
     "an awake cycle there records a failure, restarts are invisible to the persisted record; the "
     "in-memory loops of activities/daemons/timers are proved to be instances of the same fold. "
     "timeout_failed_for_good is proved for batches merged at once (lag 0) and scripts without "
-    "pending-children outcomes, the exact guard under which the code guarantees it. Tied to the code by "
+    "pending-children outcomes, the exact guard under which the code guarantees it. For timers the bounds are "
+    "theorems per retry series; over a timer's whole life the clause is false of the code (finding C11-F1: a "
+    "failed series is restarted from scratch after the interval) — negation proved by witness and replayed on "
+    "the real _timer in every run. Tied to the code by "
     "a grid on the real execute_handler_once/with_outcome (complete in thorough) and closed-loop "
     "sequences on the real processing cycle, kopf.execute, run_activity, _daemon, _timer.")
 TIE = ("D: bounded-exhaustive grid on the real execute_handler_once / execute_handlers_once / with_outcome "
@@ -96,6 +99,10 @@ EPOCH = simloop.EPOCH
 
 class NonDyadic(Exception):
     pass
+
+
+class BusyLoop(Exception):
+    """The in-memory driver executed over and over at one virtual instant: it does not sleep."""
 
 
 class Escaped(Exception):
@@ -596,7 +603,7 @@ async def run_grid(ctx: Ctx, points: list[dict], use_model: bool = True) -> None
             out = res.get("out") or {}
             trivial = res["awake"] is True and p["x"][0] == "ok" and out.get("invoked") and p["timeout"] is None and p["retries"] is None
             ctx.case(key=point_key(p, res), nontrivial=not trivial,
-                     sample={"grid_point": p, "impl": point_impl(res)} if ctx.evaluations % 2999 == 0 else None)
+                     sample={"grid_point": p, "impl": point_impl(res)} if ctx.evaluations % 2999 == 0 and len(ctx.samples) < 3 else None)
             ctx.count("grid.raised", p["x"][0])
             ctx.count("grid.mode", f"{p['errors']}/{p['default_errors']}")
             ctx.count("grid.branch", (f"awake={res['awake']}" if res["awake"] is not True else
@@ -953,6 +960,8 @@ def spy_batches(log: list, on_batch: Any = None, ncalls: Any = None) -> Iterator
 
     async def exec_spy(*args: Any, **kw: Any) -> Any:
         st = kw["state"]
+        if len(log) >= 1000 and log[-1000]["t"] == now_ticks():
+            raise BusyLoop(f"1000 executions at virtual time {now_ticks()} ticks without sleeping")
         entry = {"t": now_ticks(), "before": {hid: rec_of_state(st[hid]) for hid in st},
                  "awake": {hid: bool(st[hid].awakened) for hid in st}, "c0": ncalls() if ncalls else 0}
         outcomes = await real_exec(*args, **kw)
@@ -1003,7 +1012,7 @@ def run_inmem_history(hist: dict) -> dict:
 
     def on_batch(entry: dict) -> None:
         # e.g. retries=0: every series is refused without a call, the script is never used up
-        if kind == "timer" and len(batches) >= 24:
+        if kind == "timer" and len({b["t"] for b in batches}) >= 24:
             stopper.set(reason=K.stoppers.DaemonStoppingReason.OPERATOR_EXITING)
 
     async def main() -> None:
@@ -1024,6 +1033,8 @@ def run_inmem_history(hist: dict) -> dict:
                 except K.activities.ActivityError as e:
                     result["raised"] = "ActivityError"
                     result["final_exc"] = {hid: type(o.exception).__name__ for hid, o in e.outcomes.items()}
+                except BusyLoop:
+                    raise
                 except Exception as e:
                     raise Escaped("run_activity", e) from e
             else:
@@ -1037,6 +1048,8 @@ def run_inmem_history(hist: dict) -> dict:
                         handler = mk_handler("timer", hd["id"], fn, hd["limits"], interval=hist["interval"], sharp=hist.get("sharp"))
                         await K.daemons._timer(settings=settings, handler=handler, cause=cause,
                                                memory=K.daemons.DaemonsMemory())
+                except BusyLoop:
+                    raise
                 except Exception as e:
                     raise Escaped("_daemon/_timer", e) from e
         result["ended"] = now_ticks()
@@ -1107,6 +1120,9 @@ def history_checks(hist: dict) -> list[dict]:
     except Escaped as e:
         return [{"hid": "*", "limits": {}, "events": [], "request": None, "impl": None,
                  "oracle": [("escaped-exception", f"a handler error escaped instead of becoming an outcome: {e}")]}]
+    except BusyLoop as e:
+        return [{"hid": "*", "limits": {}, "events": [], "request": None, "impl": None,
+                 "oracle": [("busy-loop", f"the retry loop does not wait for the delay, it spins: {e}")]}]
 
 
 def _history_checks(hist: dict, kind: str, db: int, env: dict) -> list[dict]:
@@ -1141,7 +1157,8 @@ def _history_checks(hist: dict, kind: str, db: int, env: dict) -> list[dict]:
             script = [[e["x"], e["dur"]] for e in atts]
             checks.append({"hid": f"{hist['handlers'][0]['id']}#{si}", "limits": l, "events": events,
                            "request": ["C11.loop", env, l, atts[0]["started"], script],
-                           "impl": impl_events(atts), "oracle": bad})
+                           # the model's loop has no idle executions: an observed one is a divergence
+                           "impl": impl_events(events), "oracle": bad})
         if kind == "timer":
             life = [e for series in obs["series"] for e in series if e["ev"] == "attempt"]
             if life:
@@ -1278,7 +1295,8 @@ def run(ctx: Ctx) -> None:
     ctx.extra["grid_total_points"] = total
     ctx.extra["grid_points_run"] = len(points)
     ctx.exhaustive = (len(points) == total)
-    hists = [gen_history(ctx.rng) for _ in range(ctx.budget(1000, 12000))]
+    ctx.extra["exhaustive_scope"] = "the grid (D) only; the attempt sequences (S) are sampled"
+    hists = [gen_history(ctx.rng) for _ in range(ctx.budget(1000, 40000))]
     run_histories(ctx, hists)
     ctx.extra["histories"] = len(hists)
 
